@@ -17,10 +17,23 @@ The theorems are in `Props/C06.lean`; the tie to TRE is the exhaustive bounded c
 -/
 namespace Hawk.Rex
 
+/-- named character classes `[:alpha:]` … (ASCII meaning, as `hawk_is_uch_*` give for ASCII subjects) -/
+inductive CClass where
+  | alpha | digit | upper | lower | alnum
+deriving Repr, DecidableEq, Inhabited
+
+def CClass.has : CClass → Char → Bool
+  | .alpha, d => d.isAlpha
+  | .digit, d => d.isDigit
+  | .upper, d => d.isUpper
+  | .lower, d => d.isLower
+  | .alnum, d => d.isAlphanum
+
 /-- one item of a bracket expression -/
 inductive ClsItem where
   | chr (c : Char)
   | range (lo hi : Char)
+  | named (k : CClass)
 deriving Repr, DecidableEq, Inhabited
 
 /-- ERE syntax tree.  `emp` is the empty regular expression (`()` or an empty alternative, which TRE
@@ -59,10 +72,11 @@ def inRange (lo hi d : Char) : Bool := decide (lo.val ≤ d.val) && decide (d.va
 
 /-- bracket item membership.  Under IGNORECASE a single character is compared after folding and a
 range contains `d` when it contains `d`, its lower-case or its upper-case form (TRE adds both case
-variants of every member of the range). -/
+variants of every member of the range); a named class likewise (TRE tests `tolower d` and `toupper d`). -/
 def itemHas (ic : Bool) : ClsItem → Char → Bool
   | .chr c, d => chrEq ic c d
   | .range lo hi, d => inRange lo hi d || (ic && (inRange lo hi (fold d) || inRange lo hi (upper d)))
+  | .named k, d => k.has d || (ic && (k.has (fold d) || k.has (upper d)))
 
 def clsHas (ic : Bool) (neg : Bool) (items : List ClsItem) (d : Char) : Bool :=
   (items.any fun it => itemHas ic it d) != neg
@@ -178,6 +192,7 @@ def IsLL (f : Flags) (s : List Char) (r : Re) (st len : Nat) : Prop :=
 def foldItem : ClsItem → ClsItem
   | .chr c => .chr (fold c)
   | .range lo hi => .range lo hi
+  | .named k => .named k
 
 def foldRe : Re → Re
   | .emp => .emp
@@ -197,6 +212,7 @@ def foldRe : Re → Re
 def itemNoRange : ClsItem → Bool
   | .chr _ => true
   | .range _ _ => false
+  | .named _ => false
 
 /-- no bracket expression of the pattern contains a range -/
 def noRange : Re → Bool
